@@ -98,8 +98,37 @@ theorem sharedIn_remove {p : Pool} {sh : Shared} (h : SharedIn p sh) (sid : Nat)
   · rw [Shared.get?_remove_ne h.1.1 hs] at hg
     exact h.2 (a, b) ((zip_mem_iff_get? h.1 a b).mpr hg)
 
-/-- `getArchetype(mask of e, sh)` + move of the valid entity `e` there: the components stay, the shared part
-becomes `sh`; no callback fires -/
+theorem rebuild_zip_self {pm : Mask} {vals : List Val} (hn : pm.Nodup) (hl : vals.length = pm.length) :
+    rebuild info (pm.zip vals) pm [] = pm.zip vals :=
+  (zip_eq_rebuild info hn hl _ _ (fun x hx => by unfold specPair; rw [find_zip_some hl hx])).symm
+
+theorem cbDiff_self (o : Nat) (m : Mask) : cbDiff info o m m = [] := by
+  unfold cbDiff
+  have : m.filter (fun c => (info c).callbacks && !m.contains c) = [] := by
+    rw [List.filter_eq_nil_iff]; intro x hx; simp [hx]
+  rw [this]; rfl
+
+/-- on a closed component set the spec's pass through the archetype lookup changes nothing -/
+theorem reclose_noop {w : WM} {iss : List Handle} {s : WS} (hi : Inv ⟨w, iss⟩) (hr : Rel ⟨w, iss⟩ s)
+    {pi i : Nat} {prow : Row} {ent : SEnt} (hrow : (w.arch pi).rows[i]? = some prow)
+    (hcomps : ent.comps = (w.arch pi).mask.zip prow.vals)
+    (hclosed : closedMask w.deps (w.arch pi).mask = (w.arch pi).mask) (k : Nat) :
+    rebuild info ent.comps (closed s.deps (compSet ent)) [] = ent.comps ∧
+    cbDiff info k (compSet ent) (closed s.deps (compSet ent)) = [] := by
+  have hpi : pi < w.archs.length := lt_of_row hrow
+  have hpm : MaskOk (w.arch pi).mask := hi.keys.masks pi hpi
+  have hplen : prow.vals.length = (w.arch pi).mask.length := hi.rows.vals pi i prow hrow
+  have hcs : compSet ent = (w.arch pi).mask := compSet_of_rel hcomps hplen
+  have hcl : closed s.deps (compSet ent) = compSet ent := by
+    rw [hcs, hr.deps, closed_eq]; exact hclosed
+  rw [hcl]
+  refine ⟨?_, cbDiff_self info k _⟩
+  rw [hcs, hcomps]
+  exact rebuild_zip_self info (maskOk_nodup hpm) hplen
+
+/-- `getArchetype(mask of e, sh)` + move of the valid entity `e` there: the shared part becomes `sh`; the component
+set becomes its closure under the dependencies declared so far (the entity's archetype may predate a declaration):
+kept components keep their values, the newly required ones are default-constructed and fire `afterAssign` -/
 theorem reshare_refines {w : WM} {iss : List Handle} {s : WS} (hi : Inv ⟨w, iss⟩) (hr : Rel ⟨w, iss⟩ s)
     {e : Handle} {k pi i : Nat} {prow : Row} {ent : SEnt}
     (hk : iss[k]? = some e) (hv : w.isValid e = true) (hrow : (w.arch pi).rows[i]? = some prow) (hent : prow.ent = e)
@@ -109,18 +138,22 @@ theorem reshare_refines {w : WM} {iss : List Handle} {s : WS} (hi : Inv ⟨w, is
     (hx : ∀ sid', lookupS xsh sid' = lookupS (absShared w.pool sh) sid') :
     ((w.getArch (w.arch pi).mask sh).2 = pi ∧
       (w.getArch (w.arch pi).mask sh).1.externalMove info (w.getArch (w.arch pi).mask sh).2 e pi i [] = none ∧
-      sh = (w.arch pi).shared ∧
+      sh = (w.arch pi).shared ∧ closedMask w.deps (w.arch pi).mask = (w.arch pi).mask ∧
       Inv ⟨(w.getArch (w.arch pi).mask sh).1, iss⟩ ∧
       Rel ⟨(w.getArch (w.arch pi).mask sh).1, iss⟩ (s.setEnt k (some { ent with shared := xsh }))) ∨
-    ((w.getArch (w.arch pi).mask sh).2 ≠ pi ∧ ∃ w2,
-      (w.getArch (w.arch pi).mask sh).1.externalMove info (w.getArch (w.arch pi).mask sh).2 e pi i [] = some (w2, []) ∧
-      Inv ⟨w2, iss⟩ ∧ Rel ⟨w2, iss⟩ (s.setEnt k (some { ent with shared := xsh }))) := by
+    ((w.getArch (w.arch pi).mask sh).2 ≠ pi ∧ ∃ w2 cbs,
+      (w.getArch (w.arch pi).mask sh).1.externalMove info (w.getArch (w.arch pi).mask sh).2 e pi i [] = some (w2, cbs) ∧
+      Inv ⟨w2, iss⟩ ∧
+      Rel ⟨w2, iss⟩ (s.setEnt k (some
+        { comps := rebuild info ent.comps (closedMask w.deps (w.arch pi).mask) [], shared := xsh })) ∧
+      cbsAgree iss cbs (cbDiff info k (w.arch pi).mask (closedMask w.deps (w.arch pi).mask))) := by
   have hpi : pi < w.archs.length := lt_of_row hrow
   have hpm : MaskOk (w.arch pi).mask := hi.keys.masks pi hpi
   have hplen : prow.vals.length = (w.arch pi).mask.length := hi.rows.vals pi i prow hrow
-  have hpclosed : ClosedUnder w.deps (w.arch pi).mask := hi.closed _ (arch_mem hpi)
-  have htm : closedMask w.deps (w.arch pi).mask = (w.arch pi).mask := closedMask_eq_self hpm hpclosed
   have hpsh : SharedIn w.pool (w.arch pi).shared := hi.shared _ (arch_mem hpi)
+  have hord : ordOf iss e = some k := ordOf_unique (issued_nodup (c := ⟨w, iss⟩) hi) hk
+  generalize htmdef : closedMask w.deps (w.arch pi).mask = tm at *
+  have htmok : MaskOk tm := by rw [← htmdef]; exact maskOk_closedMask w.deps hpm
   rcases getArch_move info hi.rows (w.arch pi).mask sh e pi i [] prow hrow hent (fun _ => hpm) with
     ⟨hti, hnone⟩ | ⟨hti, w2, cbs, hsome, hm, hmask, hshd⟩
   · left
@@ -128,10 +161,13 @@ theorem reshare_refines {w : WM} {iss : List Handle} {s : WS} (hi : Inv ⟨w, is
       rcases Mustache.Proofs.Rows.getArch_cases w (w.arch pi).mask sh with ⟨h, _⟩ | ⟨_, h, _⟩
       · exact h
       · rw [hti] at h; omega
-    have hdata := (getArch_key w (w.arch pi).mask sh).2
+    have hkey := getArch_key w (w.arch pi).mask sh
+    have hdata := hkey.2
     rw [hti, hw1] at hdata
+    have hcl : tm = (w.arch pi).mask := by
+      have := hkey.1; rw [hti, hw1, htmdef] at this; exact this.symm
     have hsheq : sh = (w.arch pi).shared := (shared_eq_of_data hi.pool hpsh hshin hdata).symm
-    refine ⟨hti, hnone, hsheq, by rw [hw1]; exact hi, ?_⟩
+    refine ⟨hti, hnone, hsheq, hcl, by rw [hw1]; exact hi, ?_⟩
     rw [hw1]
     refine rel_entity (c := ⟨w, iss⟩) hi hr hk hv (OpFrame.refl hi.rows _) (fun _ => rfl) (PoolExt.refl _) rfl rfl rfl rfl rfl
       { ent with shared := xsh } ?_
@@ -140,7 +176,7 @@ theorem reshare_refines {w : WM} {iss : List Handle} {s : WS} (hi : Inv ⟨w, is
     show lookupS xsh sid' = _
     rw [hx sid', hsheq]
   · right
-    rw [htm] at hm hmask
+    rw [htmdef] at hm hmask
     have hks : KeysSame (w.getArch (w.arch pi).mask sh).1 w2 :=
       externalMove_keysSame info _ _ e pi i [] (w2, cbs) hsome (getArch_idx_lt w _ sh)
     have hinv' : Inv ⟨w2, iss⟩ := moved_inv (m := (w.arch pi).mask) (sh := sh) hi hv hshin hm hks
@@ -150,32 +186,48 @@ theorem reshare_refines {w : WM} {iss : List Handle} {s : WS} (hi : Inv ⟨w, is
     have hsh' : SharedIn w.pool (w2.arch (w.getArch (w.arch pi).mask sh).2).shared := by
       have := hinv'.shared _ (arch_mem htilt)
       rw [← hpool']; exact this
-    have hcomps : ent.comps =
-        (w2.arch (w.getArch (w.arch pi).mask sh).2).mask.zip (carry info (w.arch pi).mask (w.arch pi).mask prow []) := by
-      rw [hmask, hrel.1, zip_eq_map (maskOk_nodup hpm) hplen,
-        zip_eq_map (maskOk_nodup hpm) (carry_length info _ _ _ _)]
-      apply List.map_congr_left
+    have hcomps : rebuild info ent.comps tm [] =
+        (w2.arch (w.getArch (w.arch pi).mask sh).2).mask.zip (carry info tm (w.arch pi).mask prow []) := by
+      rw [hmask]
+      symm
+      apply zip_eq_rebuild info (maskOk_nodup htmok) (carry_length info _ _ _ _)
       intro x hx'
-      rw [carry_get info _ _ _ _ x hx', carried_of_mem info _ _ _ x hx']
-    have hrel' := moved_rel (sh := sh) hi hr hk hv hshin hm hsh' hshd { ent with shared := xsh } hcomps hx
-    -- no callbacks
+      rw [carry_get info _ _ _ _ x hx', hrel.1]
+      by_cases hxp : x ∈ (w.arch pi).mask
+      · rw [carried_of_mem info _ _ _ x hxp]
+        exact zip_specPair_old info _ _ hplen x hxp
+      · rw [carried_of_not_mem info _ _ _ x hxp]
+        have hnil : ([] : Mask).contains x = false := rfl
+        simp only [hnil, Bool.false_eq_true, if_false]
+        exact zip_specPair_new info _ _ x hxp
+    have hrel' := moved_rel (sh := sh) hi hr hk hv hshin hm hsh' hshd
+      { comps := rebuild info ent.comps tm [], shared := xsh } hcomps hx
+    refine ⟨hti, w2, cbs, hsome, hinv', hrel', ?_⟩
+    -- callbacks
     have hw1pi : (w.getArch (w.arch pi).mask sh).1.arch pi = w.arch pi := getArch_arch_lt w _ _ pi hpi
-    have hw1ti : ((w.getArch (w.arch pi).mask sh).1.arch (w.getArch (w.arch pi).mask sh).2).mask = (w.arch pi).mask := by
-      rw [(getArch_key w (w.arch pi).mask sh).1, htm]
-    have hcbs : cbs = [] := by
+    have hw1ti : ((w.getArch (w.arch pi).mask sh).1.arch (w.getArch (w.arch pi).mask sh).2).mask = tm := by
+      rw [(getArch_key w (w.arch pi).mask sh).1, htmdef]
+    have hcbs : cbs = moveCbs info (w.getArch (w.arch pi).mask sh).1 (w.getArch (w.arch pi).mask sh).2 e pi [] ++
+        ((w.getArch (w.arch pi).mask sh).1.archRemove info pi i
+          ((w.getArch (w.arch pi).mask sh).1.arch (w.getArch (w.arch pi).mask sh).2).mask).2 := by
       have := externalMove_eq2 info (w.getArch (w.arch pi).mask sh).1 (w.getArch (w.arch pi).mask sh).2 e pi i [] hti
       rw [hsome] at this
-      have hc := (Prod.mk.inj (Option.some.inj this)).2
-      have hrow1 : ((w.getArch (w.arch pi).mask sh).1.arch pi).rows[i]? = some prow := by rw [hw1pi]; exact hrow
-      rw [hc, archRemove_cbs info _ pi i _ prow hrow1, moveCbs, hw1pi, hw1ti]
-      have h1 : (w.arch pi).mask.filter (fun c => !(w.arch pi).mask.contains c && (info c).callbacks &&
-          !([] : Mask).contains c) = [] := by
-        rw [List.filter_eq_nil_iff]; intro x hx'; simp [hx']
-      have h2 : (w.arch pi).mask.filter (fun c => (info c).callbacks && !(w.arch pi).mask.contains c) = [] := by
-        rw [List.filter_eq_nil_iff]; intro x hx'; simp [hx']
-      rw [h1, h2]; rfl
-    rw [hcbs] at hsome
-    exact ⟨hti, w2, hsome, hinv', hrel'⟩
+      exact (Prod.mk.inj (Option.some.inj this)).2
+    have hrow1 : ((w.getArch (w.arch pi).mask sh).1.arch pi).rows[i]? = some prow := by rw [hw1pi]; exact hrow
+    have hmove : moveCbs info (w.getArch (w.arch pi).mask sh).1 (w.getArch (w.arch pi).mask sh).2 e pi [] =
+        (tm.filter (fun c => (info c).callbacks && !(w.arch pi).mask.contains c)).map (Cb.assign · e) := by
+      rw [moveCbs, hw1pi, hw1ti]
+      congr 1
+      apply List.filter_congr
+      intro x _
+      have hnil : ([] : Mask).contains x = false := rfl
+      rw [hnil]
+      cases (w.arch pi).mask.contains x <;> cases (info x).callbacks <;> rfl
+    unfold cbsAgree
+    rw [hcbs, hmove, archRemove_cbs info _ pi i _ prow hrow1, hw1pi, hw1ti, hent, List.map_append,
+      cbAbs_assign_map hord, cbAbs_remove_map hord]
+    unfold cbDiff
+    rw [List.map_append]
 
 theorem frame_arch {w w' : WM} (h : FrameEq w w') (ai : Nat) : w'.arch ai = w.arch ai := by
   rw [arch_def, arch_def, h.archs]
@@ -226,21 +278,35 @@ theorem sassign_refines {c : CW} {s : WS} (hi : Inv c) (hb : Bounds c) (hr : Rel
     ((frame_isValid hfe e).trans hv2) (by rw [harch]; exact hrow) hent ((frame_locOf hfe e).trans hloc2) hal hrel0
     ((w.arch pi).shared.add sid (w.poolGet sid v).2) hshin (setShared ent.shared sid v) hx
   rw [harch] at hrs
+  have hdeps0 : (w.poolGet sid v).1.deps = w.deps := hfe.deps
+  have hpm : MaskOk (w.arch pi).mask := hi.keys.masks pi hpi
+  have hplen : prow.vals.length = (w.arch pi).mask.length := hi.rows.vals pi i prow hrow
+  have hcs : compSet ent = (w.arch pi).mask := compSet_of_rel hrel.1 hplen
+  have hcl : closed s.deps (compSet ent) = closedMask w.deps (w.arch pi).mask := by rw [hcs, hr.deps, closed_eq]
+  have hcl' : closed s.deps (w.arch pi).mask = closedMask w.deps (w.arch pi).mask := by rw [hr.deps, closed_eq]
   have hs : s.step info (Op.mapRef (ordOf iss) (.sassign e sid v)) =
-      (s.setEnt k (some { ent with shared := setShared ent.shared sid v }), .ok, []) := by
-    simp only [Op.mapRef, WS.step, hord2, hal]
+      (s.setEnt k (some { comps := rebuild info ent.comps (closedMask w.deps (w.arch pi).mask) [],
+                          shared := setShared ent.shared sid v }), .ok,
+        cbDiff info k (w.arch pi).mask (closedMask w.deps (w.arch pi).mask)) := by
+    simp only [Op.mapRef, WS.step, hord2, hal, hcs, hcl']
   unfold StepRefines
   rw [hs]
-  rcases hrs with ⟨_, hnone, _, hinv', hrel'⟩ | ⟨_, w2, hsome, hinv', hrel'⟩
+  rw [hdeps0] at hrs
+  rcases hrs with ⟨_, hnone, _, hclosed, hinv', hrel'⟩ | ⟨_, w2, cbs, hsome, hinv', hrel', hcb⟩
   · have hstep : CW.step info ⟨w, iss⟩ (.sassign e sid v) =
         (⟨((w.poolGet sid v).1.getArch (w.arch pi).mask ((w.arch pi).shared.add sid (w.poolGet sid v).2)).1, iss⟩, .ok, []) := by
       simp only [CW.step, WM.step, WM.sassign, hla, hidx, harch, hnone, issueOut]
     rw [hstep]
+    have hno := reclose_noop info hi hr hrow hrel.1 hclosed k
+    rw [hcl, hcs] at hno
+    rw [hno.1, hno.2]
     exact ⟨hinv', hrel', agree_ok_nil _ _ rfl⟩
-  · have hstep : CW.step info ⟨w, iss⟩ (.sassign e sid v) = (⟨w2, iss⟩, .ok, []) := by
+  · have hstep : CW.step info ⟨w, iss⟩ (.sassign e sid v) = (⟨w2, iss⟩, .ok, cbs) := by
       simp only [CW.step, WM.step, WM.sassign, hla, hidx, harch, hsome, issueOut]
     rw [hstep]
-    exact ⟨hinv', hrel', agree_ok_nil _ _ rfl⟩
+    refine ⟨hinv', hrel', trivial, ?_⟩
+    simp only [isUnlockOp, Bool.false_eq_true, if_false]
+    exact hcb
 
 theorem agree_ret_nil (c' : CW) (op : Op Handle) (b : Bool) (h : isUnlockOp op = false) :
     stepAgree c' op (.ret b) [] (.ret b) [] := by
@@ -310,22 +376,30 @@ theorem sremove_refines {c : CW} {s : WS} (hi : Inv c) (hb : Bounds c) (hr : Rel
         exact hrel.2 sid'
     have hrs := reshare_refines info hi hr (e := e) (k := k) (pi := pi) (i := i) (prow := prow) (ent := ent) hk hv2 hrow
       hent hloc2 hal hrel ((w.arch pi).shared.remove sid) hshin (ent.shared.filter (·.1 != sid)) hx
+    have hpm : MaskOk (w.arch pi).mask := hi.keys.masks pi hpi
+    have hplen : prow.vals.length = (w.arch pi).mask.length := hi.rows.vals pi i prow hrow
+    have hcs : compSet ent = (w.arch pi).mask := compSet_of_rel hrel.1 hplen
+    have hcl' : closed s.deps (w.arch pi).mask = closedMask w.deps (w.arch pi).mask := by rw [hr.deps, closed_eq]
     have hs : s.step info (Op.mapRef (ordOf iss) (.sremove e sid)) =
-        (s.setEnt k (some { ent with shared := ent.shared.filter (·.1 != sid) }), .ret true, []) := by
-      simp only [Op.mapRef, WS.step, hord2, hal, hany, hhas, if_true]
+        (s.setEnt k (some { comps := rebuild info ent.comps (closedMask w.deps (w.arch pi).mask) [],
+                            shared := ent.shared.filter (·.1 != sid) }), .ret true,
+          cbDiff info k (w.arch pi).mask (closedMask w.deps (w.arch pi).mask)) := by
+      simp only [Op.mapRef, WS.step, hord2, hal, hany, hhas, if_true, hcs, hcl']
     unfold StepRefines
     rw [hs]
-    rcases hrs with ⟨_, _, hsheq, _, _⟩ | ⟨_, w2, hsome, hinv', hrel'⟩
+    rcases hrs with ⟨_, _, hsheq, _, _, _⟩ | ⟨_, w2, cbs, hsome, hinv', hrel', hcb⟩
     · -- the descriptor without `sid` would be the descriptor with it
       exfalso
       have h1 := Shared.get?_remove_self sid hpsh.1
       rw [hsheq] at h1
       have h2 := (Shared.has_iff_get? sid hpsh.1.1).mp hhas
       rw [h1] at h2; cases h2
-    · have hstep : CW.step info ⟨w, iss⟩ (.sremove e sid) = (⟨w2, iss⟩, .ret true, []) := by
+    · have hstep : CW.step info ⟨w, iss⟩ (.sremove e sid) = (⟨w2, iss⟩, .ret true, cbs) := by
         simp only [CW.step, WM.step, WM.sremove, hv2, Bool.not_true, Bool.false_eq_true, if_false, hla, hidx, hhas, hsome,
           issueOut]
       rw [hstep]
-      exact ⟨hinv', hrel', agree_ret_nil _ _ _ rfl⟩
+      refine ⟨hinv', hrel', rfl, ?_⟩
+      simp only [isUnlockOp, Bool.false_eq_true, if_false]
+      exact hcb
 
 end Mustache.Proofs.Refine
